@@ -635,6 +635,10 @@ def run_check(prop, tier, seed, replay):
                 script_files.append(("tlc-sim-%s-%d-%d" % (fam, c["nobj"], i), scr, c["nobj"]))
             # 3. random histories generated by the harness itself (implementation -> specification)
             dv = T["drive"]
+            if tier == "thorough" and P.get("layouts"):
+                # every history is replayed under N layouts: keep the volume (and the size of one
+                # trace file) in line with the other checks
+                dv = dict(dv, scripts=max(14, dv["scripts"] // P["layouts"][tier]))
             per_fam = max(1, dv["scripts"] // len(P["fams"]))
             k = max(1, T["chunks"] // len(P["fams"]), (per_fam * dv["length"]) // 8000)
             for ci in range(k):
